@@ -10,6 +10,8 @@ use uuid::Uuid;
 mod apply;
 mod snapshot;
 mod sync;
+#[cfg(gothenburgbitfactory_taskchampion_verif)]
+pub(crate) use sync::{verif_decode, verif_encode};
 pub(crate) mod undo;
 mod working_set;
 
